@@ -432,12 +432,82 @@ pub fn run(rep: &Report) {
         rep.nontrivial(format!("nonce-{}", c).as_bytes());
     }
 
+    // recipient public key supplied with bit 255 set (non-canonical but legal encoding): the raw bytes are hashed into the
+    // handshake, the scalar multiplication masks the bit (RFC 7748)
+    {
+        let (s, rc) = (&ids[0], &ids[2]);
+        let mut topbit = rc.pk;
+        topbit[31] |= 0x80;
+        for l in [0usize, 5, 100] {
+            rep.eval(2);
+            let p = plaintext(seed ^ 0x69, l);
+            let want = r::write_key_file(&s.sk, &topbit, &e, &pk, &p, &[l]).unwrap();
+            let sub = Subject::KeyEnc { s: hx(&s.sk), s_pub: hx(&s.pk), r_pub: hx(&topbit), e: hx(&e), payload: hx(&pk) };
+            let (res, got) = run_plain(&sub, &p);
+            if !res.is_ok() || got != want {
+                rep.violation("enc-key-topbit-recipient", json!({"kind":"topbit","len":l}), format!("key_encrypt to a recipient key encoded with bit 255 set: output differs from the specification ({})", res.brief()));
+            }
+            // the reader that knows its own key under that encoding must accept the specification's file
+            let (dres, out) = run_plain(&Subject::KeyDec { r: hx(&rc.sk), r_pub: hx(&topbit) }, &want);
+            if !matches!(&dres, Res::Ok(Some(sn)) if sn[..] == s.pk[..]) || out != p {
+                rep.violation("dec-key-topbit-recipient", json!({"kind":"topbit","len":l}), format!("conforming file addressed to a recipient key encoded with bit 255 set is not decrypted: {}", dres.brief()));
+            }
+            rep.nontrivial(format!("topbit-{}", l).as_bytes());
+        }
+    }
+    cli_conformance(rep);
     // (iv) golden files
     golden(rep);
     rep.set_exhaustive(true);
 }
 
+/// CLI level: password files written by the specification decrypt with the CLI under exactly those password bytes, and
+/// files written by the CLI are read by the specification — for passwords with leading/trailing blanks and line ends.
+fn cli_conformance(rep: &Report) {
+    use crate::proc::{self, Cmd, Scratch};
+    let seed = rep.seed;
+    let pws = ["pw", "pw\n", "pw\r\n", " pw ", "p\u{e4}ss", "", "\n"];
+    let p = plaintext(seed ^ 0x6a, 70);
+    pws.par_iter().for_each(|pw| {
+        rep.eval(2);
+        rep.nontrivial(format!("cli-conf-{:?}", pw).as_bytes());
+        let attempt = || -> Result<(), String> {
+            let sc = Scratch::new();
+            let salt = derive32(seed, "c06-cli-salt");
+            let reff = r::write_pass_file_with_key(&r::pass_key(pw.as_bytes(), &salt), &salt, &p, &[70]);
+            sc.write("ref.ktl", &reff);
+            sc.write("plain.bin", &p);
+            let o = proc::run(&Cmd::new(&["password", "decrypt", "ref.ktl", "-o", "out.bin", "--env-pass"]).env("KESTREL_PASSWORD", pw), &sc.0);
+            o.well_behaved()?;
+            if !o.ok() || sc.read("out.bin").as_deref() != Some(&p[..]) {
+                return Err(format!("a conforming password file written for the password {:?} is not decrypted by `kestrel password decrypt` given exactly that password: {}", pw, o.summary()));
+            }
+            let o = proc::run(&Cmd::new(&["password", "encrypt", "plain.bin", "-o", "cli.ktl", "--env-pass"]).env("KESTREL_PASSWORD", pw), &sc.0);
+            o.well_behaved()?;
+            let f = sc.read("cli.ktl").ok_or("no file written")?;
+            if !o.ok() || f.len() < 36 {
+                return Err(format!("password encrypt failed: {}", o.summary()));
+            }
+            let s2: [u8; 32] = f[4..36].try_into().unwrap();
+            match r::read_pass_file_with_key(&r::pass_key(pw.as_bytes(), &s2), &f) {
+                Ok(pp) if pp.plaintext == p => Ok(()),
+                other => Err(format!("the file `kestrel password encrypt` writes for the password {:?} is not the conforming file for those password bytes: {:?}", pw, other.map(|x| x.chunking))),
+            }
+        };
+        if attempt().is_err() {
+            if let Err(e) = attempt() {
+                rep.violation("cli/password-file-conformance", json!({"kind":"cli-conf","pw":pw}), e);
+            }
+        }
+    });
+}
+
 pub fn replay(rep: &Report, case: &Value) {
+    if case["kind"] == "cli-conf" || case["kind"] == "topbit" {
+        println!("  re-running C06");
+        run(rep);
+        return;
+    }
     let a32 = |k: &str| -> [u8; 32] { unhx(case[k].as_str().unwrap_or("")).try_into().unwrap_or([0; 32]) };
     let ident = |k: &str| -> Ident {
         let sk = a32(k);
